@@ -6,7 +6,8 @@
 From Coq Require Import List ZArith NArith String Bool.
 From SCC Require Import Base.Sexp Lang.FunSyn Lang.CoreSyn Lang.AxSyn Lang.AxSize Lang.FsSize Lang.CoreSize
      Model.Fun2Core Model.Focus Model.Shrink Model.SizeDefs Model.Linearize Model.Backend
-     Model.Uniquify Proof.Fun2CoreProof Proof.SizeLin Proof.SizeCodegen Proof.SizeShrink Proof.SizeFocus Proof.SizeGen Proof.SizeUniquify Model.SizeFun Proof.SizeFun2CoreFv Proof.SizeFun2Core Proof.SizeFun2CoreProg.
+     Model.Uniquify Proof.Fun2CoreProof Proof.SizeLin Proof.SizeCodegen Proof.SizeShrink Proof.SizeFocus Proof.SizeGen Proof.SizeUniquify Model.SizeFun Proof.SizeFun2CoreFv Proof.SizeFun2Core Proof.SizeFun2CoreProg
+     Model.ParMoves Model.LinCheck Model.X86 Model.SizeWf Proof.SizeParMoves Proof.SizeExchange Proof.SizeCodegenWf Proof.SizeX86.
 Import ListNotations.
 Open Scope N_scope.
 
@@ -237,3 +238,56 @@ Theorem C19_fun2core_size_quadratic : forall p c, compile_prog p = Fun2Core.Ok c
   size_cprog c <= size_fcprog p * (10 + 4 * size_fcprog p).
 Proof. exact fun2core_size_quadratic. Qed.
 Print Assumptions C19_fun2core_size_quadratic.
+
+(* ---------- round 2: the cost model, discharged for x86-64 ---------- *)
+(* [cost_model B K] above asks the parallel-move bound of EVERY move table tm; that is more than any back
+   end can give: with duplicate target ids the spanning "tree" of the algorithm unfolds a DAG.  The
+   provable form restricts the last clause to the move table of a Substitute whose old and new contexts
+   have pairwise distinct ids ([cost_model_wf], Proof/SizeCodegenWf.v; the other clauses are the
+   same), and the generic theorem asks that of every Substitute met ([sub_wf], Model/SizeWf.v). *)
+Theorem C19_cost_model_weaker : forall {Code Temp : Type} (B : backend Code Temp) (K : N),
+  cost_model B K -> cost_model_wf B K.
+Proof.
+  intros Code Temp B K (H1 & H2 & H3 & H4 & H5 & H6 & H7 & H8 & H9 & H10 & H11 & H12 & H13 & H14 & H15 & H16 & H17 & H18).
+  repeat split; auto. intros re c code _ _ H. apply H18 in H. rewrite SizeLin.len_map in H. exact H.
+Qed.
+Print Assumptions C19_cost_model_weaker.
+
+Theorem C19_codegen_size_wf : forall {Code Temp : Type} (B : backend Code Temp) (K : N), cost_model_wf B K ->
+  forall types ds lc code lc', sub_wf_defs ds = true ->
+  translate B types ds lc = Backend.Ok (code, lc') -> len code <= K * cg_bound_defs ds.
+Proof. intros Code Temp B K H. apply translate_size_wf_cm. exact H. Qed.
+Print Assumptions C19_codegen_size_wf.
+
+(* the precondition holds of everything the linear discipline accepts, in particular of linearize's output
+   for checked programs (C05_linearize_exact: prog_ok p -> lin_check_prog (linearize p)) *)
+Theorem C19_lin_check_sub_wf : forall p, lin_check_prog p = true -> sub_wf_prog p = true.
+Proof. exact lin_check_prog_sub_wf. Qed.
+Print Assumptions C19_lin_check_sub_wf.
+
+(* the counting lemma of the parallel-move algorithm (any temporaries): in-degree <= 1 and duplicate-free
+   target sets give at most 2 pseudo-instructions per edge and one per key *)
+Theorem C19_parallel_moves_count : forall (T : Type) (eqb : T -> T -> bool),
+  (forall a b, reflect (a = b) (eqb a b)) ->
+  forall fuel (A : amap T) rs, indeg1 T eqb A -> nodup_targets T eqb A -> spanning_forest T eqb fuel A = Some rs ->
+  (List.length (flat_map (root_moves T) rs) <= 2 * List.length (all_targets T A) + List.length A)%nat.
+Proof. exact parallel_moves_len. Qed.
+Print Assumptions C19_parallel_moves_count.
+
+(* x86-64: K = 40 + 13 * FIELDS_PER_BLOCK (= 79 with 3 fields per block) *)
+Theorem C19_x86_cost_model : cost_model_wf x86_backend x86_K.
+Proof. apply x86_cost_model_wf. intros c. vm_compute. discriminate. Qed.
+Print Assumptions C19_x86_cost_model.
+
+Theorem C19_x86_codegen_size : forall types ds lc code lc',
+  sub_wf_defs ds = true ->
+  translate x86_backend types ds lc = Backend.Ok (code, lc') -> len code <= x86_K * cg_bound_defs ds.
+Proof. intros types ds lc code lc'. apply x86_translate_size. intros c. vm_compute. discriminate. Qed.
+Print Assumptions C19_x86_codegen_size.
+
+(* the whole routine: preamble, setup, argument moves, code, cleanup *)
+Theorem C19_x86_compile_size : forall p lc r n lc',
+  sub_wf_prog p = true -> x86_compile p lc = Backend.Ok (r, n, lc') ->
+  len r <= 30 + x86_K * cg_bound_defs (pdefs p).
+Proof. exact x86_compile_size. Qed.
+Print Assumptions C19_x86_compile_size.
